@@ -7,7 +7,7 @@ res={}
 cur=None
 for lg in logs:
     for line in open(lg):
-        m=re.match(r'== (C\d\d)[/-](\d)',line)
+        m=re.match(r'== (C\d\d)[/-](\d+)',line)
         if m: cur=(m.group(1),m.group(2)); res.setdefault(cur,{'checks':{}}); continue
         if cur is None: continue
         r=res[cur]
